@@ -106,7 +106,7 @@ URL_IN_HTML_RE = re.compile(URL_IN_HTML, re.I | ASCII)
 URL_IN_HTML_BINARY_RE = re.compile(URL_IN_HTML_BINARY, re.I)
 
 QUERY_VALUE_IN_URL_TEMPLATE = r"(?:^|[?&])(%s)=([^&]+)"
-QUERY_VALUE_TEMPLATE = r"%s=([^&]+)"
+QUERY_VALUE_TEMPLATE = r"%s=([^&#]+)"
 
 DOMAIN_TEMPLATE = r"^(?:https?:)?(?://)?(?:\S+(?::\S*)?@)?%s(?:[:/#]|\s*$)"
 
